@@ -24,6 +24,7 @@ TRACE = ("server/bptkServer.py", "BPTK_Py/bptk.py", "scenariorunners/sd_runner.p
 RULE = ("a run = k in {2,3,4} instances, each with a generated request stream (create, begin-session with settings "
         "unique to the instance, run-step with/without settings/body, run-steps, stream-steps, session-results, "
         "flat-session-results, end-session, keep-alive, stop-instance, time-outs that do fire on victim instances), "
+        "with settings partly unique to the instance and partly drawn from a pool shared by all instances, "
         "merged into one interleaving by virtual time stamps, executed once interleaved and once per instance solo; "
         "non-trivial = at least two instances had requests interleaved with one another (A.. B.. A) and at least one "
         "response comparison was made; distinct = distinct event-log digest of the interleaved run")
@@ -35,7 +36,7 @@ ASSUMPTIONS = ["observer instances never outlive their own time-out, victims are
                "global endpoints (metrics) are excluded from the comparison",
                "the oracle is self-relative: a defect that is identical in the interleaved and the solo run does not surface here"]
 FAULT_KINDS = ["request_interleaving", "victim_expiry", "victim_stop", "preemption"]
-PROBES = ["victim_swept_by_observer_request", "victim_stopped", "settings_differ_between_instances", "shared_base_model",
+PROBES = ["same_settings_on_two_instances", "victim_swept_by_observer_request", "victim_stopped", "settings_differ_between_instances", "shared_base_model",
           "adapter_files_compared"]
 EXHAUSTIVE = {"quick": False, "thorough": False}
 
@@ -50,6 +51,12 @@ def plan(tier, verif_seed):
 
 
 def _settings(rng, template, k, scen):
+    if rng.random() < 0.5:
+        # values from a small pool SHARED by all instances: two sessions on equally named scenarios then
+        # often pass identical settings (state keyed by scenario name instead of by instance shows up here)
+        if template == "T1":
+            return {"smA": {scen: {"constants": {"constant": rng.choice([7.0, 9.0])}}}}
+        return {"smA": {scen: {"constants": {"k": rng.choice([1.0, 2.0]), "drain": 0.5}}}}
     if template == "T1":
         return {"smA": {scen: {"constants": {"constant": 1.0 + 0.5 * k + rng.choice([0, 0.25])}}}}
     if rng.random() < 0.5:
@@ -315,6 +322,12 @@ def execute(case):
     sets = [canon_json(o.get("settings")) for o in case["ops"] if o["op"] == "begin_session" and o.get("settings")]
     if len(set(sets)) > 1:
         res.probe("settings_differ_between_instances")
+    step_sets = {}
+    for o in case["ops"]:
+        if o["op"] in ("run_step", "run_steps") and o.get("settings"):
+            step_sets.setdefault(canon_json(o["settings"]), set()).add(o["inst"])
+    if any(len(v) > 1 for v in step_sets.values()):
+        res.probe("same_settings_on_two_instances")
     for j in range(k):
         solo, sfiles = _run(case, j)
         a = [x for x in inter.get(j, []) if fate.get(j) is None or x[0] < fate[j]]
